@@ -51,6 +51,7 @@ pub fn all() -> Vec<&'static Scenario> {
     v.push(&tasks::RT);
     v.push(&hooks::SOCKIO);
     v.push(&hooks::SOCKOPT);
+    v.push(&hooks::CONNIO);
     v.push(&hooks::TIMED);
     v.push(&hooks::SLEEPERS);
     v.push(&netio::READY);
